@@ -57,6 +57,7 @@ func buildStream(h []gCommit) []byte {
 	var sb bytes.Buffer
 	mark := 0
 	content := map[string]string{}
+	executable := map[string]bool{}
 	blob := func(data string) int {
 		mark++
 		fmt.Fprintf(&sb, "blob\nmark :%d\ndata %d\n%s\n", mark, len(data), data)
@@ -86,6 +87,18 @@ func buildStream(h []gCommit) []byte {
 				delete(content, op.Path)
 				content[op.New] = data
 				cmds = append(cmds, "D "+op.Path, fmt.Sprintf("M 100644 :%d %s", blob(data), op.New))
+			case "chmod":
+				// the permission bits flip, the content stays: numstat 0 0, summary line ` mode change 100644 => 100755 path`
+				executable[op.Path] = !executable[op.Path]
+				cmds = append(cmds, fmt.Sprintf("M %s :%d %s", map[bool]string{true: "100755", false: "100644"}[executable[op.Path]], blob(content[op.Path]), op.Path))
+			case "rename-chmod":
+				// a pure rename that also flips the permission bits: the rename line is followed by a nameless mode-change line
+				data := content[op.Path]
+				delete(content, op.Path)
+				content[op.New] = data
+				executable[op.New] = !executable[op.Path]
+				delete(executable, op.Path)
+				cmds = append(cmds, "D "+op.Path, fmt.Sprintf("M %s :%d %s", map[bool]string{true: "100755", false: "100644"}[executable[op.New]], blob(data), op.New))
 			case "binary":
 				data := "\x00\x01\x02binary\x00" + op.Path
 				content[op.Path] = data
@@ -161,7 +174,8 @@ func c14History(c *engine.C, maxDepth int) []gCommit {
 		} else {
 			menu = append(menu, op{"modify", []gOp{{Kind: "modify", Path: existing[0]}}}, op{"add", nil}, op{"delete", []gOp{{Kind: "delete", Path: existing[0]}}},
 				op{"rename-in-dir", nil}, op{"rename-across-dirs", nil}, op{"rename-to-root", nil}, op{"binary", nil}, op{"empty", []gOp{}}, op{"merge", []gOp{{Kind: "merge"}}},
-				op{"modify+add", nil}, op{"rename+add-sorting-after", nil}, op{"rename+delete-sorting-after", nil})
+				op{"modify+add", nil}, op{"rename+add-sorting-after", nil}, op{"rename+delete-sorting-after", nil},
+				op{"chmod", []gOp{{Kind: "chmod", Path: existing[0]}}}, op{"chmod+add-sorting-after", nil}, op{"chmod+delete-of-another", nil}, op{"rename-with-chmod+add-sorting-after", nil})
 		}
 		o := menu[c.Choose(len(menu), pfx+"op")]
 		switch o.name {
@@ -182,6 +196,17 @@ func c14History(c *engine.C, maxDepth int) []gCommit {
 			if len(existing) > 1 {
 				o.ops = append(o.ops, gOp{Kind: "delete", Path: existing[len(existing)-1]})
 			}
+		case "chmod+add-sorting-after":
+			// summary lines come in path order: the mode-change line precedes the create line
+			o.ops = []gOp{{Kind: "chmod", Path: existing[0]}, {Kind: "add", Path: fmt.Sprintf("zz/created%d.txt", i)}}
+		case "chmod+delete-of-another":
+			o.ops = []gOp{{Kind: "chmod", Path: existing[0]}}
+			if len(existing) > 1 {
+				o.ops = append(o.ops, gOp{Kind: "delete", Path: existing[len(existing)-1]})
+			}
+		case "rename-with-chmod+add-sorting-after":
+			f := existing[0]
+			o.ops = []gOp{{Kind: "rename-chmod", Path: f, New: filepath.Join(filepath.Dir(f), "moved_"+filepath.Base(f))}, {Kind: "add", Path: fmt.Sprintf("zz/created%d.txt", i)}}
 		case "rename-in-dir":
 			f := existing[0]
 			o.ops = []gOp{{Kind: "rename", Path: f, New: filepath.Join(filepath.Dir(f), "renamed_"+filepath.Base(f))}}
@@ -201,7 +226,7 @@ func c14History(c *engine.C, maxDepth int) []gCommit {
 		}
 		cm.Ops = o.ops
 		for xi := range cm.Ops {
-			if cm.Ops[xi].Kind == "rename" {
+			if cm.Ops[xi].Kind == "rename" || cm.Ops[xi].Kind == "rename-chmod" {
 				// a rename never lands on a path that exists (git would show that as a delete plus a modify)
 				for exists[cm.Ops[xi].New] {
 					cm.Ops[xi].New += ".2"
@@ -215,7 +240,7 @@ func c14History(c *engine.C, maxDepth int) []gCommit {
 				order = append(order, x.Path)
 			case "delete":
 				delete(exists, x.Path)
-			case "rename":
+			case "rename", "rename-chmod":
 				delete(exists, x.Path)
 				exists[x.New] = true
 				order = append(order, x.New)
